@@ -28,3 +28,9 @@ package errlog
 //vc:ghost var lockHeld bool
 //vc:ghost var lockFileRef ref
 //vc:ghost var lockClosed bool
+
+// C17: whatever goes to a session log (.login/.config/.change) is secret free.
+// Every caller is verified; device data and planned changes are assumed secret
+// free where they are logged (assume clauses at those sites).
+//vc:func DoLog
+//vc:  requires[C17] @loggedTextSecretFree secretFree(s)
